@@ -164,17 +164,23 @@ def boolLex (b : Bool) : Str := if b then ['t', 'r', 'u', 'e'] else ['f', 'a', '
 def normaliseXsdString (s : Str) : Str :=
   s.map (fun c => if c == '\t' || c == '\n' || c == '\r' then ' ' else c)
 
-/-- `re.sub(" +", " ", s)` -/
+/-- `re.sub(" +", " ", s)`: a space followed by a space is dropped -/
 def collapseSpaces : Str → Str
   | [] => []
-  | c :: cs =>
-    if c == ' ' then
-      match cs with
-      | ' ' :: _ => collapseSpaces cs
-      | _ => ' ' :: collapseSpaces cs
-    else c :: collapseSpaces cs
+  | c :: cs => if c == ' ' && cs.head? == some ' ' then collapseSpaces cs else c :: collapseSpaces cs
 
-def stripAndCollapse (s : Str) : Str := collapseSpaces (strip s)
+/-- `s.strip(" ")` -/
+def stripSpL : Str → Str
+  | [] => []
+  | c :: cs => if c == ' ' then stripSpL cs else c :: cs
+def stripSpR : Str → Str
+  | [] => []
+  | c :: cs =>
+    match stripSpR cs with
+    | [] => if c == ' ' then [] else [c]
+    | r => c :: r
+
+def stripAndCollapse (s : Str) : Str := collapseSpaces (stripSpR (stripSpL s))
 
 /-! ## dates and times (CPython `fromisoformat` / `isoformat` on the declared fragment) -/
 
@@ -216,23 +222,32 @@ def lastChar? : Str → Option Char
   | [c] => some c
   | _ :: cs => lastChar? cs
 
+/-- `parse_xsd_date`, step 1: drop a final `Z`/`z` -/
+def dateStripZ (s0 : Str) : Str :=
+  if lastChar? s0 == some 'Z' || lastChar? s0 == some 'z' then dropLast s0 else s0
+
+/-- step 3: cut a time part (`…T…`) or a time-zone suffix (`+hh:mm`, `-hh:mm`) -/
+def dateCut (s2 : Str) : Str :=
+  if s2.contains 'T' then s2.takeWhile (fun c => c != 'T')
+  else
+    match lastIdx '+' s2 with
+    | some (i + 1) => s2.take (i + 1)
+    | _ =>
+      match lastIdx '-' s2 with
+      | some i => if (s2.drop (i + 1)).contains ':' then s2.take i else s2
+      | none => s2
+
+/-- final step: at least one dash, then `date.fromisoformat` (which never parses a leading `-`) -/
+def dateFinish (minus : Bool) (s3 : Str) : Option PyVal :=
+  if !s3.contains '-' then none
+  else if minus then none
+  else pyDateFromIso s3
+
 /-- `parse_xsd_date` — the string surgery is rdflib's, the final call is `date.fromisoformat` -/
 def parseXsdDate (s0 : Str) : Option PyVal :=
-  let s1 := if lastChar? s0 == some 'Z' || lastChar? s0 == some 'z' then dropLast s0 else s0
+  let s1 := dateStripZ s0
   let minus := s1.head? == some '-'
-  let s2 := if minus then s1.drop 1 else s1
-  let s3 :=
-    if s2.contains 'T' then s2.takeWhile (fun c => c != 'T')
-    else
-      match lastIdx '+' s2 with
-      | some (i + 1) => s2.take (i + 1)
-      | _ =>
-        match lastIdx '-' s2 with
-        | some i => if (s2.drop (i + 1)).contains ':' then s2.take i else s2
-        | none => s2
-  if !s3.contains '-' then none
-  else if minus then none          -- fromisoformat("-" + …) never parses
-  else pyDateFromIso s3
+  dateFinish minus (dateCut (if minus then s1.drop 1 else s1))
 
 /-- fraction digits → microseconds, truncating (CPython ≥ 3.11) -/
 def fracToMicrosTrunc (fp : Str) : Nat := num ((fp ++ ['0', '0', '0', '0', '0', '0']).take 6)
@@ -687,22 +702,26 @@ def postProcess (dt : Option Dt) (s : Str) : Str :=
   else if dt == some .token then stripAndCollapse (normaliseXsdString s)
   else s
 
-/-- `Literal(s, datatype=dt, normalize=…)` for a `str` argument -/
-def mkLex (dt : Option Dt) (s : Str) (normalize : Bool) : Option Lit :=
-  let v := castLex dt s
-  let ill := dt.map (fun d => !wellFormed d s v)
-  match v, normalize with
+/-- `Literal(s, datatype=dt, normalize=…)` for a `str` argument: the white-space facet of
+    token / normalizedString is applied first, then converter, checker, optional normalisation -/
+def mkLex (dt : Option Dt) (s0 : Str) (normalize : Bool) : Option Lit :=
+  match castLex dt (postProcess dt s0), normalize with
   | some pv, true =>
     match pyLex pv dt with
-    | some l => some ⟨postProcess dt l, dt, v, ill⟩
+    | some l => some ⟨postProcess dt l, dt, some pv, dt.map (fun d => !wellFormed d (postProcess dt s0) (some pv))⟩
     | none => none
-  | _, _ => some ⟨postProcess dt s, dt, v, ill⟩
+  | v, _ => some ⟨postProcess dt s0, dt, v, dt.map (fun d => !wellFormed d (postProcess dt s0) v)⟩
+
+/-- `rdflib.util._coalesce(datatype, _datatype)` -/
+def coalesceDt (dt : Option Dt) (v : PyVal) : Option Dt :=
+  match dt with
+  | some d => some d
+  | none => genericDt v
 
 /-- `Literal(v, datatype=dt)` for a non-string Python object -/
 def mkPy (v : PyVal) (dt : Option Dt) : Option Lit :=
-  let dt' := match dt with | some d => some d | none => genericDt v
   match pyLex v dt with
-  | some l => some ⟨postProcess dt' l, dt', some v, none⟩
+  | some l => some ⟨postProcess (coalesceDt dt v) l, coalesceDt dt v, some v, none⟩
   | none => none
 
 /-- `Literal(v)` as dispatched by `__new__`: `str` (and `bytes`) go through the lexical branch -/
